@@ -3,7 +3,7 @@
 seed="$1"; shift; id=$(basename "$seed"); props="${*:-${id%%-*}}"
 G=/verif/bin/gvc; [ -x /verif/bin/gvc-dev ] && G=/verif/bin/gvc-dev
 tmp=$(mktemp -d /tmp/gvc-try-XXXXXX); trap 'rm -rf "$tmp"' EXIT
-mkdir -p $tmp/chk; rsync -a --exclude .git --exclude 'task' /repo/ $tmp/chk/
+mkdir -p $tmp/chk; rsync -a --exclude .git --exclude '/task' /repo/ $tmp/chk/
 (cd $tmp/chk && (git apply "$seed/patch.diff" 2>/dev/null || patch -p1 --fuzz=3 -s < "$seed/patch.diff" >/dev/null 2>&1)) || { echo "$id: patch does not apply"; exit 2; }
 for p in $props; do
   out=$(GVC_REPO=$tmp/chk GVC_OUT=$tmp/out $G check $p 2>&1)
